@@ -700,7 +700,7 @@ func verifStageMatrix(r *gen.Rand) []vsOp {
 // duplicate of a file that is validated and held for its predecessor arrives,
 // then the receiver restarts, then the predecessor arrives (C06, C05)
 // kind < 0: one of the scenarios at random; otherwise the scenario with that number (0 g, 1 f, 2 e, 3 d,
-// 4 c, 5 a, 6 b, 7 h, 8 i), variant selecting among its main alternatives - the first lines of every run go through
+// 4 c, 5 a, 6 b, 7 h, 8 i, 9 j, 10 k), variant selecting among its main alternatives - the first lines of every run go through
 // all of them systematically
 func verifStageMatrix2(r *gen.Rand, kind, variant int) []vsOp {
 	sel := func(k, num, den int) bool {
@@ -739,6 +739,44 @@ func verifStageMatrix2(r *gen.Rand, kind, variant int) []vsOp {
 		recv(f, 0, len(f.content))
 	}
 	names := [][2]string{{"site/data.bin", "site/next.bin"}, {"a", "b"}, {"g.1", "g.2"}, {"d/e/x", "d/y"}}[r.Intn(4)]
+	if sel(10, 1, 11) {
+		// (k) a name whose old version is known from the receive log only: the cleaner rightly removes a
+		// stalled late duplicate of that old version (a look-up in the log that says yes); then a NEW
+		// version of the name stalls for more than a day and the cleaner comes by again
+		N1 := mk(names[0], "", 4+r.Intn(6))
+		whole(N1)
+		ops = append(ops, vsOp{kind: "ST"}, vsOp{kind: "AA", num: 259200}, vsOp{kind: "RS"})
+		// (the duplicate carries a recent file time: the receiver does not read its log back to the old
+		// record when the part arrives, so the cleaner has to ask the log)
+		prep(N1)
+		recv(N1, 0, len(N1.content)/2)
+		ops = append(ops, vsOp{kind: "AG", name: N1.name}, vsOp{kind: "CL"}, vsOp{kind: "SC"})
+		N2 := mk(names[0], "", 4+r.Intn(8))
+		h := len(N2.content) / 2
+		prep(N2)
+		recv(N2, 0, h)
+		ops = append(ops, vsOp{kind: "AG", name: N2.name}, vsOp{kind: "CL"}, vsOp{kind: "SC"})
+		recv(N2, h, len(N2.content))
+		ops = append(ops, vsOp{kind: "ST"}, vsOp{kind: "SQ", name: N2.name, num: -3600})
+		return ops
+	}
+	if sel(9, 1, 10) {
+		// (j) a version delivered days ago is retransmitted in two parts, and the receiver restarts between
+		// them: the staged partial survives, the in-memory record of the old delivery does not (it is in
+		// the receive log); the completing part arrives as a fresh request
+		F := mk(names[0], "", 4+r.Intn(10))
+		h := len(F.content) / 2
+		whole(F)
+		ops = append(ops, vsOp{kind: "ST"}, vsOp{kind: "AA", num: 259200})
+		F.time -= 259200
+		prep(F)
+		recv(F, 0, h)
+		ops = append(ops, vsOp{kind: "RS"})
+		prep(F)
+		recv(F, h, len(F.content))
+		ops = append(ops, vsOp{kind: "ST"}, vsOp{kind: "SQ", name: F.name, num: -3600})
+		return ops
+	}
 	if sel(8, 1, 9) {
 		// (i) the validators have a backlog: a file is complete but not yet hash-checked when the sender
 		// polls / asks about it; then validation runs (variant 0: the file had been damaged in transit)
@@ -828,14 +866,19 @@ func verifStageMatrix2(r *gen.Rand, kind, variant int) []vsOp {
 		A := mk(names[0], "", 2+r.Intn(8))
 		B1 := mk(names[1], names[0], 4+r.Intn(8))
 		B2 := mk(names[1], names[0], 4+r.Intn(8))
+		if pickN(2) == 0 {
+			B2 = mk(names[1], names[0], len(B1.content)) // a new version of exactly the same size
+		}
 		whole(B1)
 		ops = append(ops, vsOp{kind: "ST"})
 		prep(B2)
 		recv(B2, 0, len(B2.content)/2)
-		if r.Chance(2, 3) {
+		if pickN(3) != 2 {
 			ops = append(ops, vsOp{kind: "RS"}, vsOp{kind: "ST"})
 		}
-		ops = append(ops, vsOp{kind: "SQ", name: B1.name, num: -3600})
+		ops = append(ops, vsOp{kind: "SQ", name: B1.name, num: -3600},
+			vsOp{kind: "SV", name: B2.name, num: -3600, part: vsPart{hash: B2.hash}},
+			vsOp{kind: "SV", name: B1.name, num: -3600, part: vsPart{hash: B1.hash}})
 		whole(A)
 		ops = append(ops, vsOp{kind: "ST"}, vsOp{kind: "SQ", name: B1.name, num: -3600})
 		if r.Chance(1, 2) {
@@ -1259,9 +1302,9 @@ func TestVerifStage(t *testing.T) {
 			N = gen.EnvInt("VERIF_STAGE_RANDOM", 5000)
 		}
 		for c := 0; c < N; c++ {
-			if c < 108 {
+			if c < 132 {
 				// every directed scenario 12 times, its main alternatives in turn
-				cases = append(cases, verifStageMatrix2(root.Sub(uint64(c)), c%9, c/9))
+				cases = append(cases, verifStageMatrix2(root.Sub(uint64(c)), c%11, c/11))
 				continue
 			}
 			cases = append(cases, verifStageGen(root.Sub(uint64(c))))
